@@ -19,7 +19,10 @@ Definition generator_facts : Prop :=
   gen_break_cleanup_before_jump = true /\
   gen_defer_registers_on_current_scope = true /\
   gen_defer_blocks_appended = true /\
-  gen_fallthrough_closes_scope = true.
+  gen_fallthrough_closes_scope = true /\
+  gen_block_resets_deferblocks = true /\
+  gen_close_defers_in_declaration_order = true /\
+  gen_jump_out_of_defer_rejected = true.
 
 Lemma generator_facts_hold : generator_facts.
 Proof. unfold generator_facts. repeat split; vm_compute; reflexivity. Qed.
@@ -46,7 +49,7 @@ Fixpoint no_direct_defer (b:block) : bool :=
 Fixpoint wfd_stmt (L D F N:bool) (s:stmt) {struct s} : bool :=
   match s with
   | Emit _ => true
-  | Defer _ b => negb N && wfd_block false false false true b
+  | Defer _ b => wfd_block false false false N b
   | Close _ => false
   | Do b => wfd_block L D F N b
   | If _ t e => wfd_block L D F N t && wfd_block L D F N e
@@ -167,7 +170,7 @@ Proof. intros. destruct fin, o; simpl in *; auto. Qed.
 
 Definition defer_body_benign (s:stmt) : Prop :=
   match s with
-  | Defer d body => forall lp y, wfd_block false false false true body = true ->
+  | Defer d body => forall N lp y, wfd_block false false false N body = true ->
                     benign (fst (rstmts lp body [] None (emit (EvU d) y))) = true
   | _ => True
   end.
@@ -185,8 +188,8 @@ Proof.
   apply sbc_mutind.
   - (* Emit *) intros; split; [intros; exact I | exact I].
   - (* Defer *) intros d b IH; split; [intros; exact I|].
-    intros lp y H. apply allowed_none_benign.
-    exact (IH false false false true lp [] None _ H (Forall_nil _)).
+    intros N lp y H. apply allowed_none_benign.
+    exact (IH false false false N lp [] None _ H (Forall_nil _)).
   - (* Close *) intros; split; [intros; exact I | exact I].
   - (* Do *) intros b IH; split; [|exact I]. intros L D F N lp x H. sem.
     exact (IH L D F N lp [] None x H (Forall_nil _)).
@@ -251,9 +254,9 @@ Proof.
              destruct (rstmt lp s x) as [o x1]; simpl in Ha;
              specialize (Hgen o x1 Ha); destruct o; exact Hgen end).
     + (* Defer *)
-      cbn [rstmts]. cbn [wfd_stmt] in Hs. apply andb_true_iff in Hs as [_ Hb].
+      cbn [rstmts]. cbn [wfd_stmt] in Hs. pose proof Hs as Hb.
       apply (IHr L D F N lp _ fin _ Hr). constructor; [|assumption].
-      intro y. exact (IHd lp y Hb).
+      intro y. exact (IHd N lp y Hb).
     + (* Close *) cbn [wfd_stmt] in Hs. discriminate.
   - (* CNil *) intros L D F N lp d v x _ Hd. sem. apply Hd.
   - (* CCons *) intros b IHb ft r IHr L D F N lp d v x H Hd. sem.
@@ -598,7 +601,7 @@ Definition P_stmt (s:stmt) : Prop :=
      tblock (cstmt (inner ++ outer) lastin s) x = post (inner ++ outer) rin (rstmt lp s x))
   /\
   match s with
-  | Defer d body => forall outer lp x, wfd_block false false false true body = true ->
+  | Defer d body => forall N outer lp x, wfd_block false false false N body = true ->
       tblock (cbody outer (newframe KBlock) body false TlPlain) x = rstmts lp body [] None x
   | _ => True
   end.
@@ -758,11 +761,11 @@ Proof.
     rewrite tblock_single. reflexivity.
   - (* Defer *) intros d b IH. split.
     + intros inner outer rin lp lastin N x Hc Hw Hlp. unf. reflexivity.
-    + intros outer lp x Hb.
-      pose proof (IH (newframe KBlock) [] [] outer [] lp TlPlain true x frame_rel_new (Forall2_nil _) Hb) as H.
+    + intros N outer lp x Hb.
+      pose proof (IH (newframe KBlock) [] [] outer [] lp TlPlain N x frame_rel_new (Forall2_nil _) Hb) as H.
       assert (Hl : lp_ok [] lp) by (unfold lp_ok; simpl; discriminate).
       specialize (H Hl I). cbn [app] in H. rewrite H. rewrite tail_post_plain. cbn [fin_of].
-      pose proof (proj1 (proj2 outcomes_allowed) b false false false true lp [] None x Hb (Forall_nil _)) as Ha.
+      pose proof (proj1 (proj2 outcomes_allowed) b false false false N lp [] None x Hb (Forall_nil _)) as Ha.
       cbn [allowed_fin] in Ha. apply allowed_none_benign in Ha.
       destruct (rstmts lp b [] None x) as [o x1]. simpl in Ha. apply post_benign. exact Ha.
   - (* Close *) intro ks. split; [|exact I]. intros inner outer rin lp lastin N x Hc Hw Hlp. unf. discriminate.
@@ -936,14 +939,14 @@ Proof.
           (rewrite (exit_tail tl) by (apply post_exit_not_nrm; [reflexivity | exact Hds]); reflexivity). }
     destruct s; try (cbn [cbody rstmts]; apply Hgen; reflexivity).
     + (* Defer *)
-      cbn [cbody rstmts]. cbn [wfd_stmt] in Hws. apply andb_true_iff in Hws as [_ Hwb].
+      cbn [cbody rstmts]. cbn [wfd_stmt] in Hws. pose proof Hws as Hwb.
       rewrite tblock_cons. cbn [texec].
       apply (IHr (add_defer cur _) (_ :: ds) inner outer rin lp tl N).
       * destruct Hf as (H1 & H2 & H3). repeat split; try assumption.
         cbn [add_defer fdefers snd]. constructor; [|exact H3].
         intro y. rewrite tblock_cons. cbn [texec].
-        rewrite (IHd _ lp _ Hwb). split; [reflexivity|].
-        pose proof (proj1 (proj2 outcomes_allowed) b false false false true lp [] None (emit (EvU d) y) Hwb (Forall_nil _)) as Ha.
+        rewrite (IHd N _ lp _ Hwb). split; [reflexivity|].
+        pose proof (proj1 (proj2 outcomes_allowed) b false false false N lp [] None (emit (EvU d) y) Hwb (Forall_nil _)) as Ha.
         cbn [allowed_fin] in Ha. apply allowed_none_benign in Ha. exact Ha.
       * exact Hc.
       * exact Hwr.
@@ -1078,8 +1081,8 @@ Fixpoint block_has_late (b:block) : bool :=
 Fixpoint wf_stmt (L D F N:bool) (s:stmt) {struct s} : bool :=
   match s with
   | Emit _ => true
-  | Defer _ b => negb N && wf_block false false false true b
-  | Close ks => negb N && close_in_order ks
+  | Defer _ b => wf_block false false false N b
+  | Close _ => true
   | Do b => wf_block L D F N b
   | If _ t e => wf_block L D F N t && wf_block L D F N e
   | While _ b => wf_block true D F N b
@@ -1095,7 +1098,7 @@ Fixpoint wf_stmt (L D F N:bool) (s:stmt) {struct s} : bool :=
 with wf_block (L D F N:bool) (b:block) {struct b} : bool :=
   match b with
   | BNil => true
-  | BCons s r => wf_stmt L D F N s && wf_block L D F N r && (negb (stmt_has_late s) || negb (block_has_late r))
+  | BCons s r => wf_stmt L D F N s && wf_block L D F N r
   end
 with wf_cases (L D F N:bool) (cs:cases) {struct cs} : bool :=
   match cs with
@@ -1137,7 +1140,7 @@ Proof.
   - (* FnCall *) intros v b IH. split; [|exact I]. intros L D F N H lp x. cbn [desugar_stmt rstmt wf_stmt] in *. f_equal. eapply IH; eauto.
   - (* BNil *) intros; reflexivity.
   - (* BCons *) intros s [IHs IHd] r IHr L D F N H lp ds fin x.
-    cbn [wf_block] in H. apply andb_true_iff in H as [H _]. apply andb_true_iff in H as [Hs Hr].
+    cbn [wf_block] in H. apply andb_true_iff in H as [Hs Hr].
     assert (Hgen : forall s', rstmt lp s' x = rstmt lp s x ->
        (match rstmt lp s' x with
         | (Nrm, x1) => rstmts lp (desugar_block r) ds fin x1 | (Abort, x1) => (Abort, x1) | (Fuel, x1) => (Fuel, x1)
@@ -1150,10 +1153,9 @@ Proof.
       try (cbn [rstmts]; apply (Hgen _ (IHs L D F N Hs lp x))).
     + (* Defer *) cbn [rstmts]. rewrite (IHr L D F N Hr). apply rstmts_ext.
       constructor; [|apply clo_eq_refl]. intro y.
-      cbn [wf_stmt] in Hs. apply andb_true_iff in Hs as [_ Hb]. eapply IHd; eauto.
+      cbn [wf_stmt] in Hs. eapply IHd; eauto.
     + (* Close *) rewrite close_defers_sem. cbn [rstmts].
-      cbn [wf_stmt] in Hs. apply andb_true_iff in Hs as [_ Ho].
-      apply list_nat_eqb_eq in Ho. rewrite Ho. apply (IHr L D F N Hr).
+      unfold close_order. apply (IHr L D F N Hr).
   - (* CNil *) intros; reflexivity.
   - (* CCons *) intros b IHb ft r IHr L D F N H lp d v x. cbn [desugar_cases rcases wf_cases] in *.
     apply andb_true_iff in H as [Hb Hr].
@@ -1168,9 +1170,9 @@ Proof.
   destruct s; simpl in *; try discriminate; auto.
 Qed.
 
-Lemma wfd_close_defers : forall L D F ks rest,
-  wfd_block L D F false rest = true -> wfd_block L D F false (close_defers ks rest) = true.
-Proof. intros L D F ks rest H. induction ks as [|k r IH]; simpl; auto. Qed.
+Lemma wfd_close_defers : forall L D F N ks rest,
+  wfd_block L D F N rest = true -> wfd_block L D F N (close_defers ks rest) = true.
+Proof. intros L D F N ks rest H. induction ks as [|k r IH]; simpl; auto. Qed.
 
 Lemma wf_desugar :
   (forall s, forall L D F N, wf_stmt L D F N s = true ->
@@ -1179,16 +1181,14 @@ Lemma wf_desugar :
   (forall cs, forall L D F N, wf_cases L D F N cs = true -> wfd_cases L D F N (desugar_cases cs) = true).
 Proof.
   apply sbc_mutind; try (intros; simpl in *; auto; fail).
-  - (* Defer *) intros d b IH L D F N H. simpl in *. apply andb_true_iff in H as [H1 H2].
-    rewrite H1. simpl. apply IH; assumption.
   - (* If *) intros c t IHt e IHe L D F N H. simpl in *. apply andb_true_iff in H as [H1 H2].
     rewrite IHt, IHe; auto.
   - (* Switch *) intros c cs IHc d IHd L D F N H. simpl in *. apply andb_true_iff in H as [H1 H2].
     rewrite IHc, IHd; auto.
-  - (* BCons *) intros s IHs r IHr L D F N H. cbn [wf_block] in H. apply andb_true_iff in H as [H _]. apply andb_true_iff in H as [H1 H2].
+  - (* BCons *) intros s IHs r IHr L D F N H. cbn [wf_block] in H. apply andb_true_iff in H as [H1 H2].
     specialize (IHs L D F N H1). specialize (IHr L D F N H2).
     destruct s; cbn [desugar_block wfd_block]; try (rewrite IHs, IHr; reflexivity).
-    (* Close *) simpl in H1. destruct N; [discriminate|]. apply wfd_close_defers. exact IHr.
+    (* Close *) apply wfd_close_defers. exact IHr.
   - (* CCons *) intros b IHb ft r IHr L D F N H. simpl in *.
     apply andb_true_iff in H as [H1 H3].
     rewrite IHb, IHr by assumption. reflexivity.
@@ -1210,56 +1210,42 @@ Proof.
   destruct o; reflexivity.
 Qed.
 
-(* the analyzer's placement rules alone: what the compiler accepts *)
-Fixpoint pl_stmt (L D F:bool) (s:stmt) {struct s} : bool :=
-  match s with
-  | Emit _ | Close _ => true
-  | Defer _ b => pl_block L D F b
-  | Do b => pl_block L D F b
-  | If _ t e => pl_block L D F t && pl_block L D F e
-  | While _ b | For _ b => pl_block true D F b
-  | Repeat b _ => pl_block true D F b
-  | Switch _ cs d => pl_cases L D F cs && pl_block L D F d
-  | DoExpr b => pl_block L true F b
-  | In _ => D
-  | Break | Continue => L
-  | Return _ | ReturnVoid => F
-  | FnCall _ b => pl_block false false true b
-  end
-with pl_block (L D F:bool) (b:block) {struct b} : bool :=
-  match b with BNil => true | BCons s r => pl_stmt L D F s && pl_block L D F r end
-with pl_cases (L D F:bool) (cs:cases) {struct cs} : bool :=
-  match cs with CNil => true | CCons b _ r => pl_block L D F b && pl_cases L D F r end.
+(* [wf_prog] is exactly what the repaired analyzer accepts of the mini-language: break/continue inside a loop
+   of the same function, `in` inside a do-expression, and none of return/break/continue/in leaving a
+   defer block (check_jump_out_of_defer) *)
+Definition accepted (p:prog) : bool := wf_prog p.
 
-Definition accepted (p:prog) : bool := pl_block false false true (snd p).
-
-Definition defer_compile_correct_full : Prop :=
-  forall p x, accepted p = true -> tgt_sem (compile p) x = ref_sem p x.
+Theorem defer_compile_correct : forall p x, accepted p = true -> tgt_sem (compile p) x = ref_sem p x.
+Proof. exact defer_compile_correct_partial. Qed.
 
 Definition st0 (o:list nat) : st := mkst o [].
 
-(* defer A end  defer if c then return end end  emit *)
+(* regression witnesses of the repaired defects: the model of the repaired generator agrees with the
+   reference semantics on them *)
+(* defer A end  defer if c then return end end  emit : no longer accepted (and the `closing` guard of the
+   generator would still skip A) *)
 Definition witness_escape : prog :=
   (true, BCons (Defer 1 BNil) (BCons (Defer 2 (BCons (If 3 (BCons ReturnVoid BNil) BNil) BNil)) (BCons (Emit 4) BNil))).
 
-Lemma refuted_escape :
-  accepted witness_escape = true /\
+Example witness_escape_rejected :
+  accepted witness_escape = false /\
   tgt_sem (compile witness_escape) (st0 [1]) <> ref_sem witness_escape (st0 [1]).
 Proof. split; [reflexivity|]. vm_compute. discriminate. Qed.
 
-(* local c1 <close>, c2 <close> = late(1), mk(2)   (the type of the first initialiser is resolved later) *)
+(* local c1 <close>, c2 <close> = late(1), mk(2) *)
 Definition witness_close_order : prog :=
   (true, BCons (Close [(1, true); (2, false)]) (BCons (Emit 3) BNil)).
 
-Lemma refuted_close_order :
-  accepted witness_close_order = true /\
-  tgt_sem (compile witness_close_order) (st0 []) <> ref_sem witness_close_order (st0 []).
-Proof. split; [reflexivity|]. vm_compute. discriminate. Qed.
+(* defer defer X end end ; if c then return end ; emit : the nested defer is compiled once per emission *)
+Definition witness_nested_defer : prog :=
+  (true, BCons (Defer 1 (BCons (Defer 2 BNil) BNil)) (BCons (If 3 (BCons ReturnVoid BNil) BNil) (BCons (Emit 4) BNil))).
 
-Theorem defer_compile_correct_refuted : ~ defer_compile_correct_full.
-Proof.
-  intro H. destruct refuted_escape as [Ha Hn]. apply Hn. apply H. exact Ha.
-Qed.
+Example witnesses_agree :
+  accepted witness_close_order = true /\ accepted witness_nested_defer = true /\
+  tgt_sem (compile witness_close_order) (st0 []) = ref_sem witness_close_order (st0 []) /\
+  tgt_sem (compile witness_nested_defer) (st0 [0]) = ref_sem witness_nested_defer (st0 [0]) /\
+  tgt_sem (compile witness_nested_defer) (st0 [1]) = ref_sem witness_nested_defer (st0 [1]).
+Proof. repeat split. Qed.
 
 (* non-vacuity: a program with loops, switch, defers, close variables satisfies the hypothesis *)
 Example wf_example :
